@@ -7,11 +7,14 @@ package hx
 
 import (
 	"context"
+	"crypto/tls"
 	"encoding/xml"
 	"errors"
 	"fmt"
 	"io"
+	"net"
 	"strings"
+	"time"
 
 	"mellium.im/xmlstream"
 	"mellium.im/xmpp"
@@ -53,6 +56,10 @@ type Outcome struct {
 	Mask    uint8 `json:"mask"`
 	Restart bool  `json:"restart,omitempty"`
 	Err     bool  `json:"err,omitempty"`
+	// RW: the kind of io.ReadWriter a restarting Negotiate returns (coq: o_rw):
+	// "" a bare io.ReadWriter wrapper, "same" the session's own connection,
+	// "plain" a net.Conn without a ConnectionState method, "tls" a net.Conn with one.
+	RW string `json:"rw,omitempty"`
 }
 
 type Child struct {
@@ -85,6 +92,10 @@ type NegCase struct {
 	In      []Item     `json:"in"`
 	TLSIn   []Item     `json:"tls_in,omitempty"`
 	Outs    []Outcome  `json:"outs,omitempty"`
+	// NetConn: the connection handed to NewSession/ReceiveSession is a net.Conn
+	// (without a ConnectionState method) rather than a bare io.ReadWriter. Not an
+	// input of the model: negotiateSession must behave the same on both.
+	NetConn bool `json:"net_conn,omitempty"`
 	// TeeFirst says which negotiator.go the case was observed on (coq: c_teefirst):
 	// true when `first` survives the tee-wrapping call (C02's repair), false on main.
 	TeeFirst bool `json:"tee_first,omitempty"`
@@ -344,8 +355,44 @@ func (c *ScriptConn) Write(p []byte) (int, error) {
 	return len(p), nil
 }
 
-// restartRW is what a scripted feature returns as its new io.ReadWriter.
+// restartRW is what a scripted feature returns as its new io.ReadWriter (kind "").
 type restartRW struct{ io.ReadWriter }
+
+// plainConn is a net.Conn without a ConnectionState method, whatever it wraps.
+type plainConn struct{ net.Conn }
+
+// tlsLikeConn is a net.Conn with a ConnectionState method.
+type tlsLikeConn struct{ net.Conn }
+
+func (tlsLikeConn) ConnectionState() tls.ConnectionState { return tls.ConnectionState{} }
+
+// RestartRW builds the io.ReadWriter of the given kind around the session's connection.
+func RestartRW(kind string, c net.Conn) io.ReadWriter {
+	switch kind {
+	case "same":
+		return c
+	case "plain":
+		return plainConn{c}
+	case "tls":
+		return tlsLikeConn{c}
+	}
+	return restartRW{c}
+}
+
+// ScriptNetConn makes a ScriptConn a net.Conn (no ConnectionState method).
+type ScriptNetConn struct{ *ScriptConn }
+
+type scriptAddr struct{}
+
+func (scriptAddr) Network() string { return "script" }
+func (scriptAddr) String() string  { return "script" }
+
+func (ScriptNetConn) Close() error                       { return nil }
+func (ScriptNetConn) LocalAddr() net.Addr                { return scriptAddr{} }
+func (ScriptNetConn) RemoteAddr() net.Addr               { return scriptAddr{} }
+func (ScriptNetConn) SetDeadline(t time.Time) error      { return nil }
+func (ScriptNetConn) SetReadDeadline(t time.Time) error  { return nil }
+func (ScriptNetConn) SetWriteDeadline(t time.Time) error { return nil }
 
 // ---------------------------------------------------------------- instrumented features
 
@@ -402,7 +449,7 @@ func AbstractFeature(f FeatSpec, log *NegLog, next func(f FeatSpec, st uint8) Ou
 			log.Add(REvent{K: "neg", Space: f.Space, Local: f.Local, St: uint8(st), O: &o})
 			var rw io.ReadWriter
 			if o.Restart {
-				rw = restartRW{s.Conn()}
+				rw = RestartRW(o.RW, s.Conn())
 			}
 			var err error
 			if o.Err {
@@ -468,7 +515,8 @@ func CoqFeat(f FeatSpec) string {
 }
 
 func CoqOutcome(o Outcome) string {
-	return fmt.Sprintf("(mkO %s %s %s)", CoqN(o.Mask), CoqBool(o.Restart), CoqBool(o.Err))
+	kind := map[string]string{"": "RWWrap", "same": "RWSame", "plain": "RWPlain", "tls": "RWTls"}[o.RW]
+	return fmt.Sprintf("(mkO %s %s %s %s)", CoqN(o.Mask), CoqBool(o.Restart), CoqBool(o.Err), kind)
 }
 
 func CoqItem(it Item) string {
